@@ -1820,7 +1820,7 @@ def mp_post(c, p):
     return validated
 
 
-Q(name="e2_poll_transmit_mtu_probe_gate_slice", props=["C07"], func=r"connection/mod\.rs:\d+:1: \d+:16>::poll_transmit$",
+Q(name="e2_poll_transmit_mtu_probe_gate_slice", props=["C07", "C15"], func=r"connection/mod\.rs:\d+:1: \d+:16>::poll_transmit$",
   src="connection/mod.rs", within=r"^    pub fn poll_transmit\(", start_line=[r"if buf\.is_empty\(\) && self\.state\.is_established\(\)", r"(?#after)// Send MTU probe if necessary"], end_line=r"self\.stats\.path\.sent_plpmtud_probes \+= 1;",
   pure=[r"anti_amplification_blocked$"], inline=[r"State::is_established$"], check_stop=True, allowed_panics=r".", ignore_untranslatable=r"^loop at",
   functions=["Connection::poll_transmit (slice: the MTU probe section after the main loop)"], pre=lambda c: "true", post=mp_post,
@@ -3094,3 +3094,32 @@ Q(name="e2_rtt_update_no_underflow", props=["C03"], func=r"paths\.rs:\d+:1: \d+:
   functions=["RttEstimator::update (Duration +, -, *, /, abs_diff inlined down to Duration::checked_*)"], pre=ru_pre, post=lambda c, p: "true",
   bounds="every estimator state, sample and (peer-reported) ack delay below 2^32 s: no path panics - in particular every Duration subtraction is guarded so that it cannot underflow; Duration::min and Duration::checked_{add,sub,mul,div} are opaque with their arithmetic contracts (sub is Some exactly when a >= b and then <= a; add / mul are Some for operands below 2^50 s and bounded; div by a non-zero constant is Some and <= a)",
   replay=("path_rtt_update_native", lambda m: [dict(latest_ms=100, has_smoothed=1, smoothed_ms=100, var_ms=10, min_ms=50, ack_delay_ms=500, rtt_ms=80), dict(latest_ms=100, has_smoothed=1, smoothed_ms=100, var_ms=10, min_ms=50, ack_delay_ms=10, rtt_ms=80), dict(latest_ms=1, has_smoothed=1, smoothed_ms=1, var_ms=0, min_ms=1, ack_delay_ms=16383, rtt_ms=1), dict(latest_ms=5, has_smoothed=0, smoothed_ms=0, var_ms=0, min_ms=5, ack_delay_ms=9, rtt_ms=7)]))
+
+
+# ------------------------------------------------------------------ C11: SendStream::reset is refused exactly for a stream that is gone or already reset
+def rsl_post(c, p):
+    st = p.p.state
+    if p.p.outcome != "return":
+        return "true"
+    err = eq(c.ex.read_key(st, "_0#discr", I64).t, bv(1))
+    rs = p.called(r"Send::reset$")
+    sf = c.field("connection/streams/send.rs", "Send", "state")
+    keys = sorted(set(re.findall(r"\|((?:in|call)[^|]*\.%d#discr)\|" % sf, " ".join(st.conds))))
+    reset_sent = bv(c.ex.enums["SendState"].index("ResetSent"))
+    if rs:
+        # the reset goes ahead: RESET_STREAM is queued, success is reported, and the stream was not reset before
+        q = p.called(r"Vec.*::push")
+        if len(rs) != 1 or not q:
+            return "false"
+        return and_(not_(err), *[not_(eq("|%s|" % k, reset_sent)) for k in keys])
+    # refused: only because the stream is unknown (no state was looked at) or already in ResetSent
+    if not keys:
+        return err
+    return and_(err, or_(*[eq("|%s|" % k, reset_sent) for k in keys]))
+
+
+Q(name="e2_sendstream_reset_legality", props=["C11"], func=r"streams/mod\.rs:\d+:1: \d+:24>::reset$",
+  pure=[r"max_send_data", r"SendBuffer::unacked", r"get_mut", r"call_once"],
+  functions=["SendStream::reset"], pre=lambda c: "true", post=rsl_post, allowed_panics=r"attempt to compute",
+  bounds="every state of the send map and of the stream: reset() reports ClosedStream exactly when the stream is not in the map any more or is already in ResetSent; in every other state - in particular DataSent with the FIN acknowledged but data still outstanding - it resets the stream, queues RESET_STREAM and reports success; map lookup, Send::reset, Vec::push opaque",
+  replay=("streams_reset_after_fin_acked_native", lambda m: [dict(x=0)]))
